@@ -309,6 +309,21 @@ def main(tier):
         jobs.append((n, d, [['PREEXISTING'] + extra for extra in ([], ['-c'], ['-c', '-f', '1', '-t', '2'], ['-c', '-r', 'REF', '-f', '1'], ['-f', '1'])], w2c2))
     for n, d in dead_instruction_modules():
         jobs.append((n, d, [[], ['-p'], ['-g', '-f', '9', '-t', '3']], w2c2))
+    # the name section (custom sections may stand anywhere) at every section boundary instead of at the end: read with -g before the sections
+    # it talks about have been seen
+    import wasmparse as wpn
+    for n, d in [x for x in hb if x[0] == 'hand-names'] + [('debug-name module', name_module(b'helper', 'debug-name'))]:
+        hdr_, secs_ = wpn.parse(d)
+        ns_ = [s_ for s_ in secs_ if s_.id == 0 and b''.join(c.emit() for c in s_.sized.children)[:5] == b'\x04name']
+        rest_ = [s_ for s_ in secs_ if s_ not in ns_]
+        if len(ns_) == 1:
+            fpos = min(k_ for k_, s_ in enumerate(rest_) if s_.id == 3)          # the function section
+            for pos in range(len(rest_)):
+                if pos <= fpos:
+                    # (one job name for all early positions: they share one cause, see known_findings.jsonl)
+                    jobs.append(('%s with its name section before the function section' % n, wpn.emit(hdr_, rest_[:pos] + ns_ + rest_[pos:]), [['-g'], ['-g', '-p'], []], w2c2))
+                else:
+                    jobs.append(('%s with its name section at section boundary %d' % (n, pos), wpn.emit(hdr_, rest_[:pos] + ns_ + rest_[pos:]), [['-g'], ['-g', '-p', '-f', '1', '-t', '2'], []], w2c2))
     for n, d in duplicate_name_modules():
         jobs.append((n, d, [['-g'], ['-g', '-p', '-m'], ['-g', '-f', '1', '-t', '2'], []], w2c2))
     positions = ('export', 'import-module', 'import-field', 'name-section', 'partial-name-section', 'import-global', 'debug-name')
